@@ -433,12 +433,16 @@ def gen_item_term(rng, depth):
         if k == "dict":
             n = rng.randint(1, 3)
             before = rng.sample([-1, 0, 1, 5, 16, None, "x", True], n)
-            after = rng.sample([".", "z", "zz", "/", "-", "ab", "a", "", "0"], n)
+            after = rng.sample([".", "z", "zz", "/", "-", "ab", "a", "", "0", "A", "F", "Zz", "_", "G"], n)
             return ("dict", before, after)
         space = rng.choice([0, -1])
         alts = [("spaces", space, rng.choice("ghijk")), ("hexint",)]
         if rng.random() < 0.5:
             alts.insert(0, ("dict", [rng.choice([-1, 0, -2])], ["."]))
+        if rng.random() < 0.3:
+            # a token alphabet outside [0-9a-z]: upper-case letters (incl. A-F, which are NOT hex digits here), '_', '.'
+            toks = rng.sample(["A", "B", "F", "G", "Z", "_", "Ab"], 2)
+            alts.append(("dict", ["wall", 77], toks))
         if rng.random() < 0.15:
             rng.shuffle(alts)
         return ("oneof", alts)
